@@ -30,5 +30,6 @@ RULE = (
     "clients dial only addresses a reply gave, never one older than the witnessed reply; after a failed send no request for the topic is written before a "
     "Metadata request covering it. non-trivial = >=2 delivered metadata replies, or a full refresh removing a connected broker, or a re-addressed broker; "
     "distinct = distinct trace. The recovery clause (producing/consuming resume) is checked by the PROD and CONS engines."
+    " Topics can be deleted and re-created with fewer partitions (ops tdel/tnew, script 'topicgone'); the reply a load consumed is matched by correlation id and address knowledge is ordered by delivery; an acks=0 success with an unwritten payload is a hidden failed send that must have invalidated the routing."
 )
 ASSUMPTIONS = ["whether a delivered reply was consumed is not observable (late replies are discarded), hence clause (b) quantifies over all delivered replies since the last witnessed one"]
